@@ -3,6 +3,9 @@ import JSight.Dfs
 import JSight.LinksHoist
 import JSight.FuelVR
 import JSight.FuelEX
+import JSight.CompileLinksText
+import JSight.E2EThm
+import JSight.CommentExamples
 /-!
 # C09 — User-type references are resolved completely and recursion is decided correctly
 
@@ -64,6 +67,33 @@ rules of one annotation are visited allOf-first whatever order they are written 
 * the validator's type expansion `VR.build` (one `addedTypeNames` set): `C09_validate_fuel_stable`, every type table.
 * the example builder `EX.build` cuts every type at its third nested expansion (`proc n > 1`), as the code does:
   `C09_example_fuel_stable`, `2·|types| + 1` units suffice on every type table.
+**Bridge to the text level.** `Compile.check` (`JSight/Compile.lean`) is the check stage of the text-level pipeline
+`E2E.validateText` (schema TEXTS → scanner model → loader model → compiled tree `Compile.CN`); its errors carry a code
+only. `CL.checkN` (`JSight/CompileLinks.lean`) is the same traversal with the names kept, `CL.lkOf` the abstraction
+from the compiled tree to the IR of `LK`, `CL.ordOf` the order of the unnamed types since fix F-34.
+* `C09_compile_check_names`: forgetting the names in `CL.checkN` gives `Compile.check` (every tree, every table).
+* `C09_models_agree_links`: on the class both models express without another error in the way (`CL.clsAll`: plain
+  objects / arrays / scalars whose EXAMPLE obeys its rules, `any`, type shortcuts `@A`, or-shortcuts `@A | @B`, key
+  shortcuts whose type is not itself a shortcut, `additionalProperties: "@T"`) the link verdict of `Compile.check`
+  and `LK.linkCheck` on the abstraction are THE SAME: both pass, both `Type "n" not found` with the same `n`, both
+  1304 with the same key. (`{type: "@A"}` / `{or: […]}` on a literal EXAMPLE are compared at run time only:
+  `c09-bridge`, 0 disagreements.) `C09_ord_ok`: `CL.ordOf` meets the hypothesis `LK.OrdOK` of the `C09_links_*`.
+* `C09_first_missing`: with every key type a string (`CL.clsSAll`) the link check IS "look up every name of
+  `CL.visitAll` in order" — it names the FIRST missing reference in the code's visiting order (root pre-order: at an
+  object the key shortcuts, then additionalProperties, then the values; then the or-shortcuts of the added types by
+  type name; then the added types by name). This was the open item "not proved: that the named type is the first
+  unresolved one" above, now proved for the text-level model.
+* `C09_text_level_links_partial`: `C09_links_iff_partial` as a statement about TEXTS. For any schema texts that the
+  model's load stage turns into compiled trees of the class, the check stage of `E2E` succeeds iff every referenced
+  name (`LK.Refs`, the spec) is among the added types and the recursion check passes; when one is missing the whole
+  pipeline answers `schemaErr 1302`, whatever the document, and the name is the first missing one of `CL.visitAll`,
+  referenced and not in the table. The step text → compiled tree is a HYPOTHESIS here (`E2E.loadSchema … = .ok …`):
+  proved for plain-JSON texts (`C01_text_schema_half`), tied for texts with shortcuts (`e2e-text`, `c09-bridge`); the
+  scanner-level theorem for trees whose leaves are shortcuts is NOT proved (`Lay.load_comments` covers scalar leaves).
+  `C09_text_level_1302_iff`: the same as one equivalence on the outcome of the whole pipeline.
+  The byte offset of the 1302 error (first byte of the node / key holding the reference, in the file of its schema)
+  is modelled in the driver (`Drv` `c09b`, part `P`) and tied by `c09-bridge:position`, not proved.
+
 None of these needs the graph to be ACCEPTED by the recursion check: the code carries a visited set / counter in
 every descent, so termination holds for rejected graphs too (`c09-typegraph` runs Check / Validate / Example under a
 deadline on them; the one historical exception, the key-shortcut type resolution, was fix F-7g).
@@ -214,5 +244,85 @@ example : LK.linkCheck demoCyclic [] = .error (.jsonTypeRecursion "@A") := by de
 example : LK.linkCheckF demoCyclic 1000 [] = .error (.jsonTypeRecursion "@A") := by
   rw [C09_links_fuel_stable demoCyclic 1000 (by decide) []]; decide
 example : LK.linkCheckF demoCyclic 1 [] = .error .fuel := by decide
+
+/-! ### the two models of the link check agree; C09 at text level -/
+
+theorem C09_compile_check_names (root : Compile.CN) (ts : Compile.Types) (hn : (ts.map (·.1)).Nodup) :
+    CL.eraseR (CL.checkN root ts) = Compile.check root ts := CL.checkN_erase root ts hn
+
+theorem C09_models_agree_links (root : Compile.CN) (ts : Compile.Types) (hn : (ts.map (·.1)).Nodup)
+    (hc : CL.clsAll root ts = true) :
+    CL.vA (CL.checkRootN root ts) = CL.vL (LK.linkCheck (CL.lkOf root ts) (CL.ordOf ts)) :=
+  CL.models_agree root ts hn hc
+
+theorem C09_ord_ok (root : Compile.CN) (ts : Compile.Types) (hc : CL.clsAll root ts = true) :
+    LK.OrdOK (CL.lkOf root ts) (CL.ordOf ts) :=
+  CL.ordOf_ordOK root ts (by
+    simp only [CL.clsAll, Bool.and_eq_true, List.all_eq_true] at hc
+    exact fun n t h => hc.2 (n, t) (CL.lookupT_mem ts n t h))
+
+theorem C09_first_missing (root : Compile.CN) (ts : Compile.Types) (hc : CL.clsSAll root ts = true) :
+    CL.checkRootN root ts =
+      (match CL.firstMissing ts (CL.visitAll root ts) with
+       | some n => .error (.missing n)
+       | none => .ok ()) := by
+  rw [CL.checkRootN_first root ts hc]; exact CL.mustAllN_eq_firstMissing ts _
+
+theorem C09_text_level_links_partial (root : List UInt8) (types : List (String × List UInt8)) (doc : List UInt8)
+    (opt : Bool) (cn : Compile.CN) (ts : Compile.Types) (hroot : E2E.loadSchema root opt = .ok (some cn))
+    (hn : CL.typeNamesOK types = true) (htypes : E2E.loadTypes types = .ok ts) (hc : CL.clsSAll cn ts = true) :
+    (Compile.check cn ts = .ok () ↔ LK.Resolved (CL.lkOf cn ts) ∧ TG.check (Compile.tgOf cn ts) = true) ∧
+    (¬ LK.Resolved (CL.lkOf cn ts) →
+      ∃ n, CL.firstMissing ts (CL.visitAll cn ts) = some n ∧ LK.Refs (CL.lkOf cn ts) n ∧
+        ¬ LK.InTable (CL.lkOf cn ts) n ∧ CL.checkN cn ts = .error (.missing n) ∧
+        E2E.validateText root types doc opt = .schemaErr 1302 0) :=
+  CL.text_level_links root types doc opt cn ts hroot hn htypes hc
+
+/-- the same as one equivalence about the outcome of the WHOLE pipeline: `schemaErr 1302` iff some referenced name is
+not among the added types (no later stage reports 1302; a failing recursion check is 104) -/
+theorem C09_text_level_1302_iff (root : List UInt8) (types : List (String × List UInt8)) (doc : List UInt8)
+    (opt : Bool) (cn : Compile.CN) (ts : Compile.Types) (hroot : E2E.loadSchema root opt = .ok (some cn))
+    (hn : CL.typeNamesOK types = true) (htypes : E2E.loadTypes types = .ok ts) (hc : CL.clsSAll cn ts = true) :
+    E2E.validateText root types doc opt = .schemaErr 1302 0 ↔ ¬ LK.Resolved (CL.lkOf cn ts) :=
+  CL.text_level_1302_iff root types doc opt cn ts hroot hn htypes hc
+
+/-- `{ // {additionalProperties: "@S"} "a": @A, @K: 1, "c": [@A | @B] }` with `@S = "s"`, `@A = {"x": @B | @C}`,
+`@K = "k"`: `@B` and `@C` were never added -/
+def bridgeRoot : Compile.CN :=
+  .obj [("a", false, true, false, .ref ["@A"] false .mixed none false),
+        ("K", true, true, false, .lit { kind := .i, ex := [49], nul := false, rules := [] } false),
+        ("c", false, true, false, .arr [.ref ["@A", "@B"] false .mixed none true] false false)] (.type "@S") false false
+
+def bridgeTypes : Compile.Types :=
+  [("@S", .lit { kind := .s, ex := [34, 115, 34], nul := false, rules := [] } false),
+   ("@A", .obj [("x", false, true, false, .ref ["@B", "@C"] false .mixed none true)] .absent false false),
+   ("@K", .lit { kind := .s, ex := [34, 107, 34], nul := false, rules := [] } false)]
+
+example : CL.clsSAll bridgeRoot bridgeTypes = true := by decide +kernel
+example : CL.clsAll bridgeRoot bridgeTypes = true := CL.clsSAll_clsAll _ _ (by decide +kernel)
+example : CL.visitAll bridgeRoot bridgeTypes = ["@K", "@S", "@A", "@A", "@B", "@B", "@C", "@B", "@C"] := by
+  decide +kernel
+example : CL.vA (CL.checkRootN bridgeRoot bridgeTypes) = .missing "@B" := by decide +kernel
+example : CL.vL (LK.linkCheck (CL.lkOf bridgeRoot bridgeTypes) (CL.ordOf bridgeTypes)) = .missing "@B" := by
+  rw [← C09_models_agree_links bridgeRoot bridgeTypes (by decide +kernel) (CL.clsSAll_clsAll _ _ (by decide +kernel))]
+  decide +kernel
+/-- a key type that is not a string: both models answer 1304 with the same key (`clsAll`, not `clsSAll`) -/
+example : CL.clsAll bridgeRoot (("@K", .arr [] false false) :: bridgeTypes.dropLast) = true ∧
+    CL.vA (CL.checkRootN bridgeRoot (("@K", .arr [] false false) :: bridgeTypes.dropLast)) = .e1304 "@K" := by
+  decide +kernel
+
+/-- the text-level statement on a real TEXT (`Lay.Ex.tC`: a plain-JSON object with comments; no references, so
+every name is resolved): the hypotheses are jointly satisfiable through the PROVED load stage -/
+example (doc : List UInt8) :
+    Compile.check (E2E.cnOf false Lay.Ex.tC.value) [] = .ok () ↔
+      LK.Resolved (CL.lkOf (E2E.cnOf false Lay.Ex.tC.value) []) ∧
+        TG.check (Compile.tgOf (E2E.cnOf false Lay.Ex.tC.value) []) = true :=
+  (C09_text_level_links_partial (Lay.docTextF [] Lay.Ex.tC [.blank 10] Lay.Ex.cFin) [] doc false
+    (E2E.cnOf false Lay.Ex.tC.value) []
+    (by
+      obtain ⟨st, hl, hr, ht⟩ := Lay.load_comments Lay.Ex.tC Lay.Ex.tC_valid (Lay.Ex.tC_value ▸ Lay.Ex.keys_ok) []
+        [.blank 10] (by simp [Lay.ValidL]) (by simp [Lay.ValidL, Lay.LI.Valid, Lay.isBlankB]) Lay.Ex.cFin Lay.Ex.cFin_ok
+      exact E2E.loadSchema_plain _ false st Lay.Ex.tC.value hl hr ht (by decide +kernel))
+    (by decide) rfl (by decide +kernel)).1
 
 end Props.C09
